@@ -18,6 +18,12 @@ pub fn corrupt(rng: &mut Rng, stream: &mut Vec<u8>, header_len: usize) -> &'stat
         stream.len()
     };
     let pos = rng.below(limit.max(1));
+    if rng.chance(1, 12) {
+        // a leftover of the peer's previous line in front of everything
+        let junk: &[u8] = *rng.pick(&[&b"\n"[..], &b"\r\n"[..], &b" "[..], &b"\0"[..], &b"\r"[..], &b"\n\n"[..]]);
+        stream.splice(0..0, junk.iter().copied());
+        return "corrupt_leading_junk";
+    }
     if rng.chance(1, 16) {
         // a byte order mark in front of everything (text that went through an editor / file)
         stream.splice(0..0, "\u{feff}".bytes());
